@@ -3,7 +3,8 @@
 From EC Require Import Base Model.Utils Model.Args Model.Writer Model.Cli Spec.ArgSpec.
 
 Definition PROMPTS : list (list N) :=
-  [ []; [36; 32]; [0xCE; 0xBB; 0xE2; 0x86; 0x92; 32]; [97; 98; 99; 62; 32] ].
+  [ []; [36; 32]; [0xCE; 0xBB; 0xE2; 0x86; 0x92; 32]; [97; 98; 99; 62; 32];
+    (* two prompts of the same BYTE length and different widths *) [194; 187; 32]; [35; 62; 32] ].
 Definition prompt_of (i : nat) : list N := nth i PROMPTS [].
 
 Definition arg_repr (a : arg) : list N :=
